@@ -110,7 +110,7 @@ def cases(draw):
             ops.append(["step_fail", draw(st.integers(0, 2))])
         if draw(st.integers(0, 2)) == 0:
             # element-level API on one element: init_vars / step with the default or an explicit spy engine
-            ops.append(["el", draw(st.sampled_from(["init", "step", "init+step"])), draw(st.integers(0, 30)),
+            ops.append(["el", draw(st.sampled_from(["step", "step", "init", "init+step"])), draw(st.integers(0, 30)),
                         draw(st.one_of(st.none(), st.integers(0, 2)))])
     return {"spec": sp, "spies": spies, "ops": ops, "falsy_spy": draw(st.one_of(st.none(), st.none(), st.integers(0, 2))), "opts": draw(st.lists(st.sampled_from(S.OPT_NAMES), unique=True, max_size=2).map(sorted))}
 
@@ -164,6 +164,7 @@ def check_case(case, ctx):
     model = engines.get_current_engine()  # the model of the selection: the object expected to be current
     model_kind = "SX"
     state_kind = None  # kind of the quantities currently held by all elements (set by a full step)
+    last_full_engine = None
     try:
         for k, op in enumerate(case["ops"]):
             what = f"op {k} {op}"
@@ -241,8 +242,11 @@ def check_case(case, ctx):
                 if state_kind is None or xk != state_kind or not stateful:
                     continue
                 queued = [j for j in stateful if j.startswith("O")]
-                pool = queued if (queued and op[2] % 2 == 0) else stateful
+                mains = [o["id"] for o in sp["origins"] if o["kind"] == "main"]
+                pool = mains if (mains and op[2] % 3 == 0) else queued if (queued and op[2] % 2 == 0) else stateful
                 i = pool[(op[2] // 2) % len(pool)]
+                if last_full_engine is not None and X is not last_full_engine and i.startswith("O"):
+                    ctx.label("el:origin-with-engine-other-than-last-full-step")
                 el = els[i]
                 ctx.label("el:" + op[1], "el:default" if op[3] is None else "el:explicit")
                 logs_before = [len(s.log) for s in spies]
@@ -275,6 +279,7 @@ def check_case(case, ctx):
                         return
                     check_types(ctx, els, model_kind, what + f" with {model_kind} selected")
                     state_kind = model_kind
+                    last_full_engine = model
                     for j, s in enumerate(spies):
                         grew = len(s.log) > logs_before[j]
                         if s is model and not grew:
@@ -296,6 +301,7 @@ def check_case(case, ctx):
                         return
                     check_types(ctx, els, xk, what + f" with {model_kind} selected")
                     state_kind = xk
+                    last_full_engine = X
                     for j, s in enumerate(spies):
                         new = s.log[logs_before[j]:]
                         if s is X:
